@@ -141,7 +141,7 @@ def system_phase(rep, pid, kind):
     """Simulate MC_System, replay into real objects, validate the events of `kind` ("tree" | "path" | "fw") with that module's validator."""
     from .. import tlc
     from ..common import tier
-    num, depth = (60, 30) if tier() == "quick" else (600, 40)
+    num, depth = (40, 24) if tier() == "quick" else (600, 40)
     res = tlc.run_tlc("MC_System", f"MC_System_{tier()}.cfg", name=f"{pid.lower()}_sysmc")
     if res.get("violated"):
         raise MachineryError(f"MC_System violates {res['violated']}:\n{res['out'][-2000:]}")
@@ -151,7 +151,15 @@ def system_phase(rep, pid, kind):
     n = replay(traces, os.path.join(d, "s"), 700_000_000)
     module, ext = {"tree": ("TV_Tree", ".tree"), "path": ("TV_Path", ".path"), "fw": ("TV_FieldWrap", ".fw")}[kind]
     f = os.path.join(d, "s" + ext)
-    k, rej, _ = tlc.validate(module, "TV.cfg", [f]) if n[kind] else (0, [], [])
+    lines = open(f).read().splitlines()
+    shards = []
+    for i in range(16):
+        part = lines[i::16]
+        if part:
+            sp = os.path.join(d, f"shard{i:02d}{ext}")
+            open(sp, "w").write("\n".join(part) + "\n")
+            shards.append(sp)
+    k, rej, _ = tlc.validate(module, "TV.cfg", shards) if shards else (0, [], [])
     rep.set("system_model_states", res["distinct"])
     rep.set("system_behaviours_replayed", len(traces))
     rep.set("system_steps_validated", k)
